@@ -684,7 +684,7 @@ func (d *dealer) syncCall(caller *wamp.Session, msg *wamp.Call) {
 		abortMsg.Details[wamp.OptMessage] = "Peer is trying to use Progressive Call Invocations while it was not " +
 			"announced during HELLO handshake"
 		d.trySend(caller, &abortMsg)
-		caller.Close()
+		caller.EndRecv(abortedGoodbye)
 		return
 	}
 
@@ -759,7 +759,7 @@ func (d *dealer) syncCall(caller *wamp.Session, msg *wamp.Call) {
 				abortMsg.Details[wamp.OptMessage] = "Peer is trying to use Payload PassThru Mode while it was not " +
 					"announced during HELLO handshake"
 				d.trySend(caller, &abortMsg)
-				caller.Close()
+				caller.EndRecv(abortedGoodbye)
 				return
 			}
 
@@ -1138,7 +1138,7 @@ func (d *dealer) syncYield(callee *wamp.Session, msg *wamp.Yield, progress, canR
 			abortMsg.Details = wamp.Dict{}
 			abortMsg.Details[wamp.OptMessage] = ErrPPTNotSupportedByPeer.Error()
 			d.trySend(callee, &abortMsg)
-			callee.Close()
+			callee.EndRecv(abortedGoodbye)
 			return false
 		}
 
